@@ -37,7 +37,7 @@ INSECURE_ORIGINS = {
     N + 'DnssecDnsHandle::verify_dnskey_rrset::{closure#0}': 1,
     N + 'nsec3::verify_nsec3': 1,
     N + 'verify_dnskey': 1,
-    N + 'verify_dnskey::{closure#0}': 1,
+    N + 'verify_dnskey::{closure@map_err#0}': 1,
     N + 'verify_rrsig_with_keys': 1,
 }
 
@@ -93,7 +93,7 @@ def run(cx):
     # ---------------------------------------------------------------- G1 verify_dnskey
     f = cx.fn('C07.G1', N + 'verify_dnskey')
     if f:
-        DSREC = r"<Filter<I;P> as Iterator>::next\(Iterator::filter\(slice::iter\(arg2\),closure:dnssec::verify_dnskey::\{closure#1\}\)\)@Some\.0"
+        DSREC = r"<Filter<I;P> as Iterator>::next\(Iterator::filter\(slice::iter\(arg2\),closure:dnssec::verify_dnskey::\{closure@filter#0\}\)\)@Some\.0"
         sec = cx.returns(f, r'^Result::Ok\(Proof::Secure\)$')
         cx.guard('C07.G1', sec, {
             'key-algorithm-supported': r'^Algorithm::is_supported\(<DNSKEY as Verifier>::algorithm\(RecordRef::data\(arg1\)\)\)$',
@@ -104,7 +104,7 @@ def run(cx):
         }, expect=1, fn=f)
         oks = cx.returns(f, r'^Result::Ok\(')
         cx.check('C07.G1', len(oks) == 1, f.path, 'returns', 'single-ok-return', '; '.join(s.term for s in oks))
-    c1 = cx.fn('C07.G1', N + 'verify_dnskey::{closure#1}')
+    c1 = cx.fn('C07.G1', N + 'verify_dnskey::{closure@filter#0}')
     if c1:
         t = cx.true_returns(c1)
         cx.check('C07.G1', len(t) == 1 and t[0].term == 'Proof::is_secure(arg2.proof)', c1.path, 'ret', 'only-secure-ds-records',
@@ -127,11 +127,11 @@ def run(cx):
         anchors = [s for s in oks if s not in selfsig]
         cx.guard('C07.G2', selfsig, {'self-signature-verified': r'^ok\(Iterator::find_map\(Iterator::filter_map\(Iterator::filter\(Iterator::filter\(Iterator::zip\('}, expect=1, fn=f)
         for s in selfsig:
-            m = re.search(r'Iterator::filter\(Iterator::filter\(Iterator::zip\(.*?\),closure:(\S+?\{closure#\d+\})\),closure:(\S+?\{closure#\d+\})\),closure:(\S+?\{closure#\d+\})\),closure:(\S+?\{closure#\d+\})\)', s.term)
+            m = re.search(r'Iterator::filter\(Iterator::filter\(Iterator::zip\(.*?\),closure:(\S+?\{closure[^}]*\})\),closure:(\S+?\{closure[^}]*\})\),closure:(\S+?\{closure[^}]*\})\),closure:(\S+?\{closure[^}]*\})\)', s.term)
             cx.check('C07.G2', bool(m), f.path, s.key(), 'filter-chain-shape', s.term[:200], s.loc)
             if m:
                 cl = {}
-                for g in cx.prog.find(r'verify_dnskey_rrset::\{closure#0\}::\{closure#\d+\}$'):
+                for g in cx.prog.find(r'verify_dnskey_rrset::\{closure#0\}::\{closure[^}]*\}$'):
                     cl[shorten(g.path + '(')[:-1].split('::', 1)[-1] if False else g.path.rsplit('::', 1)[-1]] = g
                 names = [x.rsplit('::', 1)[-1] for x in m.groups()]
                 want = [('key-proof-secure', r'^Proof::is_secure\(arg2\.1\.0\)$'),
@@ -146,8 +146,8 @@ def run(cx):
                 cx.check('C07.G2', bool(tr) and all(re.search(r'^Result::ok\(dnssec::verify_rrset_with_dnskey\(arg2\.0,arg2\.1,', t.term) for t in tr),
                          f.path, s.key(), 'verdict-from-verify_rrset_with_dnskey', '; '.join(t.term[:120] for t in tr), s.loc)
         cx.guard('C07.G2', anchors, {'every-key-is-secure(trust-anchor-or-DS)':
-                 r"^<Iter<'a;T> as Iterator>::all\(slice::iter\(.*\),closure:DnssecDnsHandle::verify_dnskey_rrset::\{closure#0\}::\{closure#7\}\)$"}, expect=1, fn=f)
-        c7 = cx.fn('C07.G2', N + 'DnssecDnsHandle::verify_dnskey_rrset::{closure#0}::{closure#7}')
+                 r"^<Iter<'a;T> as Iterator>::all\(slice::iter\(.*\),closure:DnssecDnsHandle::verify_dnskey_rrset::\{closure#0\}::\{closure@all#2\}\)$"}, expect=1, fn=f)
+        c7 = cx.fn('C07.G2', N + 'DnssecDnsHandle::verify_dnskey_rrset::{closure#0}::{closure@all#2}')
         if c7:
             t = cx.true_returns(c7)
             cx.check('C07.G2', len(t) == 1 and t[0].term == 'Proof::is_secure(arg2.0)', c7.path, 'ret', 'all-secure-predicate', '; '.join(s.term for s in t))
@@ -208,7 +208,7 @@ def run(cx):
                 cx.check('C07.W2', ok, s.path, x.key(), f'{eff}-set-before-forwarding', '', x.loc)
             ok = bool(thn) and thn[0].bb in cx.reachable_from(s, [x.bb])
             cx.check('C07.W2', ok, s.path, x.key(), 'response-routed-through-verify', '', x.loc)
-    c0 = cx.fn('C07.W2', '<hickory_net::dnssec::DnssecDnsHandle<H> as hickory_net::xfer::dns_handle::DnsHandle>::send::{closure#0}')
+    c0 = cx.fn('C07.W2', '<hickory_net::dnssec::DnssecDnsHandle<H> as hickory_net::xfer::dns_handle::DnsHandle>::send::{closure@then#0}')
     if c0:
         v = cx.calls(c0, r'DnssecDnsHandle::verify_response$')
         cx.check('C07.W2', len(v) == 1, c0.path, 'calls', 'verify_response-called', str(len(v)))
@@ -219,7 +219,7 @@ def run(cx):
         oks = cx.returns(v, r'^Result::Ok\(')
         cx.check('C07.G3', len(oks) == 4, v.path, 'returns', 'ok-exit-count', f'{len(oks)} Ok exits, 4 reviewed')
         kinds = {
-            'authorities-all-insecure': r'^Iterator::all\(HashMap::iter\(await\(DnssecDnsHandle::verify_rrsets\(.*\.authorities\).*\)\)@Ready\.0\),closure:.*\{closure#1\}\)$',
+            'authorities-all-insecure': r'^Iterator::all\(HashMap::iter\(await\(DnssecDnsHandle::verify_rrsets\(.*\.authorities\).*\)\)@Ready\.0\),closure:.*\{closure@all#0\}\)$',
             'answers-without-denial-records': r'^!Vec::is_empty\(.*\.answers\)$',
             'ds-lookup-proves-insecure': r'^eq:Proof\(Proof::Insecure,await\(DnssecDnsHandle::find_ds_records\(.*\)\)@Ready\.0@Err\.0\.proof\)$',
             'nsec-proof-secure': r'^Proof::is_secure\(',
@@ -228,11 +228,13 @@ def run(cx):
             held = [k for k, rx in kinds.items() if cx.has_guard(s_, rx)]
             cx.check('C07.G3', len(held) >= 1, v.path, s_.key(), 'ok-exit-justified', 'holds: ' + ','.join(held), s_.loc)
         cx.guard('C07.G3', oks, {'all-sections-verified-first': r'^is\(await\(DnssecDnsHandle::verify_rrsets\(.*\.additionals\).*\)\),Ready\)$'}, fn=v)
-    c1 = cx.fn('C07.G3', N + 'DnssecDnsHandle::verify_response::{closure#0}::{closure#1}')
+    c1 = cx.fn('C07.G3', N + 'DnssecDnsHandle::verify_response::{closure#0}::{closure@all#0}')
     if c1:
         t = cx.true_returns(c1)
         cx.guard('C07.G3', t, {'records-all': r"^<Iter<'a;T> as Iterator>::all\(slice::iter\(arg2\.1\.records\),", }, fn=c1)
-        for sub in cx.prog.find(r'verify_response::\{closure#0\}::\{closure#1\}::\{closure#\d\}$'):
+        subs = cx.prog.find(r'verify_response::\{closure#0\}::\{closure@all#0\}::\{closure@all#\d+\}$')
+        cx.check('C07.G3', len(subs) >= 1, c1.path, 'closures', 'insecure-predicate-present', str(len(subs)))
+        for sub in subs:
             tt = cx.true_returns(sub)
             cx.check('C07.G3', len(tt) == 1 and tt[0].term == 'eq:Proof(Proof::Insecure,arg2.proof)', sub.path, 'ret', 'insecure-predicate', '; '.join(x.term for x in tt))
 
